@@ -712,6 +712,9 @@ def gen_local_case(rng, exact=False, backend="numpy"):
             case["maxiter"] = 2000
         elif r < 0.65:
             case["maxerror"] = 1e-6
+        elif r < 0.75:
+            case["maxerror"] = 1e-12  # too few iterations allowed: ConvergenceError (model: `none`) unless the rate vanishes
+            case["maxiter"] = rng.choice([1, 2, 3])
     elif rng.random() < 0.12 and not exact:
         case["eq"]["real"] = [rng.choice([0.0, 0.1, -0.2, 0.05]) for _ in range(ncomp)]
     if steps >= 2 and rng.random() < 0.2:
@@ -989,23 +992,23 @@ def run(ctx):
     src = {"NUMBA_DISABLE_JIT": "1"}
     jit = {"NUMBA_DISABLE_JIT": "0"}
 
-    local = [gen_local_case(rng) for _ in range(ctx.budget(500, 5000))]
-    recorded = [gen_recorded_case(rng) for _ in range(ctx.budget(50, 400))]
-    exact = [gen_local_case(rng, exact=True) for _ in range(ctx.budget(120, 1000))]
-    nb_src = [gen_local_case(rng, backend="numba") for _ in range(ctx.budget(120, 1000))]
+    local = [gen_local_case(rng) for _ in range(ctx.budget(500, 12000))]
+    recorded = [gen_recorded_case(rng) for _ in range(ctx.budget(50, 900))]
+    exact = [gen_local_case(rng, exact=True) for _ in range(ctx.budget(120, 2500))]
+    nb_src = [gen_local_case(rng, backend="numba") for _ in range(ctx.budget(120, 2500))]
     for c in nb_src:
         c["rng_as"] = "legacy"
         c.pop("advance", None)
     nb_jit = []
-    for _ in range(ctx.budget(6, 48)):
+    for _ in range(ctx.budget(8, 96)):
         c = gen_local_case(rng, backend="numba")
         c.update(rng_as="legacy", jit=True, light=True)
         c.pop("advance", None)
         nb_jit.append(c)
-    rec_jit = [dict(c, light=True) for c in rng.sample(recorded, min(len(recorded), ctx.budget(3, 30)))]
-    malformed = [gen_malformed(rng) for _ in range(ctx.budget(40, 300))]
+    rec_jit = [dict(c, light=True) for c in rng.sample(recorded, min(len(recorded), ctx.budget(4, 48)))]
+    malformed = [gen_malformed(rng) for _ in range(ctx.budget(40, 600))]
     sjobs = []
-    for k in range(ctx.budget(6, 24)):
+    for k in range(ctx.budget(6, 36)):
         cls = ["PolarSymGrid", "SphericalSymGrid", "CartesianGrid", "CylindricalSymGrid"][k % 4]
         if cls == "CylindricalSymGrid":
             gd = {"cls": cls, "shape": [64, 64], "bounds": [[0.0, 16.0], [0.0, 32.0]], "periodic": [False, False]}
